@@ -188,7 +188,9 @@ def make_classes(sc):
         kw = {k: [v, NAMES[6]] for k, v in kw.items()}
     elif sc.get("extra") == "other_list":     # a resolvable entry in the other list
         kw["unless" if sc["expected"] else "cond"] = NAMES[6]
-    body["go"] = body["s0"].to.itself(**kw)
+    # the same self-transition written as s0.to.itself(...) or as s0.from_.any(...) (expanded by the
+    # metaclass onto every non-final state, i.e. onto s0)
+    body["go"] = body["s0"].from_.any(**kw) if sc.get("via_any") else body["s0"].to.itself(**kw)
     body.update(mk(0))
     M = type(StateMachine)("M", (StateMachine,), body)
     Mdl = type("Mdl", (), dict(mk(1), state=None))
@@ -205,6 +207,9 @@ def set_attrs(sc, objs):
 def run_impl(sc):
     from statemachine.exceptions import InvalidDefinition, TransitionNotAllowed
     global ENV
+    if sc.get("textual"):
+        from statemachine.spec_parser import replace_operators
+        return {"out": replace_operators(sc["text"])}
     try:
         from statemachine.signature import SignatureAdapter
         fc = SignatureAdapter.from_callable
@@ -304,6 +309,10 @@ def cq_expr(e):
 
 
 def coq_case(sc, obs):
+    if sc.get("textual"):
+        def codes(t):
+            return "[" + "; ".join(str(ord(c)) for c in t) + "]"
+        return f"(text_case {codes(sc['text'])} {codes(obs['out'])})"
     if sc.get("malformed"):
         # expected: InvalidDefinition when the machine is instantiated
         return f"(mal {1 if obs.get('construct') == 'idef' else 0})"
@@ -396,6 +405,7 @@ def gen_case(rng, depth):
                 return out
             if flat(a2) == flat(a):
                 del sc["second"]
+    sc["via_any"] = rng.random() < 0.25
     if rng.random() < 0.3 and not cmpy and not (sc.get("second") and has_cmp(sc["second"]["ast"])):
         sc["async_engine"] = True      # (comparisons may raise TypeError, whose fate among several
                                        #  concurrently evaluated guards is left open)
@@ -468,13 +478,26 @@ def generate(rng, tier):
     parts.append(("malformed stream: strings that do not parse, use constructs outside the grammar, or name "
                   "something no provider has, alone or next to a resolvable entry in the same / the other guard "
                   "list (must raise InvalidDefinition at StateMachine())", len(mal)))
+    # the textual layer on its own: random ASCII texts over the characters that matter
+    alphabet = "vvv!!^^== ()ax_1n"
+    nt = 1500 if tier == "quick" else 40000
+    texts = []
+    for _ in range(nt):
+        texts.append({"textual": True, "text": "".join(rng.choice(alphabet) for _ in range(rng.randint(0, 12))),
+                      "provide": {}, "envs": []})
+    for t in ["v", "!v", "v!", "!=", "!!=", "a!=v", "v v", "vv", "_v", "v_", "v1", "1v", "(v)", "^v^", "a^!b v c", "not_v v v2"]:
+        texts.append({"textual": True, "text": t, "provide": {}, "envs": []})
+    scs += texts
+    parts.append(("textual layer: replace_operators on random ASCII texts over v ! ^ = space ( ) letters digits "
+                  "underscore (length 0-12) and hand-picked corner cases, compared character by character with the "
+                  "model Impl/Replace.v", len(texts)))
     return scs, parts
 
 
 def nontrivial(sc, obs):
     """Non-trivial: the expression uses >= 2 different operators (and / or / not / comparison) and was
     evaluated under >= 1 valuation; malformed inputs count when they are rejected at instantiation."""
-    if sc.get("malformed"):
+    if sc.get("malformed") or sc.get("textual"):
         return False
     ops = set()
 
@@ -495,9 +518,11 @@ def nontrivial(sc, obs):
 
 
 def render_source(sc):
+    if sc.get("textual"):
+        return f"from statemachine.spec_parser import replace_operators\nprint(repr(replace_operators({sc['text']!r})))\n"
     kw = "cond" if sc["expected"] else "unless"
     return (f"# guard text given to the library: {sc['text']!r}\n# canonical Python spelling: {sc.get('canon')!r}\n"
-            f"class M(StateMachine):\n    s0 = State(initial=True)\n    go = s0.to.itself({kw}={sc['text']!r})"
+            f"class M(StateMachine):\n    s0 = State(initial=True)\n    go = s0.{'from_.any' if sc.get('via_any') else 'to.itself'}({kw}={sc['text']!r})"
             f"   # extra entry: {sc.get('extra')}\n"
             f"# names provided as: { {NAMES[int(n)]: v for n, v in sc['provide'].items()} }\n")
 
